@@ -222,6 +222,33 @@ def stepMeas (secs : List (List String)) : String :=
     | _, _, _, _, _ => "bad-op"
   | _ => "bad-op"
 
+def planOp? : List String → Option PlanOp
+  | ["exogenize", q] => q.toNat?.map .exogenize
+  | ["unexogenize", q] => q.toNat?.map .unexogenize
+  | ["endogenize", q] => q.toNat?.map .endogenize
+  | ["unendogenize", q] => q.toNat?.map .unendogenize
+  | ["fix_level", q] => q.toNat?.map .fixLevel
+  | ["unfix_level", q] => q.toNat?.map .unfixLevel
+  | ["fix_change", q] => q.toNat?.map .fixChange
+  | ["unfix_change", q] => q.toNat?.map .unfixChange
+  | ["fix", q] => q.toNat?.map .fix
+  | ["unfix", q] => q.toNat?.map .unfix
+  | ["swap", x, q] => do let x ← x.toNat?; let q ← q.toNat?; pure (.swap x q)
+  | ["unswap", x, q] => do let x ← x.toNat?; let q ← q.toNat?; pure (.unswap x q)
+  | _ => none
+
+/-- `planops <1|0 growth> ; op q | op q | …` -> the four registers, sorted -/
+def stepPlanops (growth : String) (secs : List (List String)) : String :=
+  match secs with
+  | [ops] =>
+    match (splitBar ops).mapM planOp? with
+    | some ops =>
+      let p := Plan.applyAll (growth = "1") {} ops
+      showNats (sortDedup p.exogenized) ++ " ; " ++ showNats (sortDedup p.endogenized) ++ " ; "
+        ++ showNats (sortDedup p.fixedLevel) ++ " ; " ++ showNats (sortDedup p.fixedChange)
+    | none => "bad-op"
+  | _ => "bad-op"
+
 def step (line : String) : String :=
   match sections line with
   | ["consts"] :: [] => QMat.showRat IrisVerif.Steady.expNinth
@@ -229,6 +256,7 @@ def step (line : String) : String :=
   | ("flags" :: args) :: [] => stepFlags args
   | ("tol" :: args) :: [] => stepTol args
   | ["wrt"] :: rest => stepWrt rest
+  | ["planops", growth] :: rest => stepPlanops growth rest
   | ["steady", flat] :: rest => stepSteady flat rest
   | ["lin", flat] :: rest => stepLin flat rest
   | ["linchk"] :: rest => stepLinchk rest
